@@ -131,7 +131,37 @@ def op_pick(w, ins):
         if v is not None:
             _judge_assignment(w, v, a.tt, care_k, exact, 'pick')
         return
-    ok, v = call(w, lambda u, c: list(g.api.pick_iter(u, c)), a.ref, care_arg)
+    lap = ins.get('overlap')
+    if lap:
+        # two enumerations alive at the same time, consumed in an interleaved
+        # way (side by side, zip, or one abandoned half-way); nothing else
+        # happens to the manager meanwhile.  The first one is the one judged.
+        b = w.pick(ins.get('b', 0), m)
+
+        def both(u, c, u2):
+            it1 = g.api.pick_iter(u, c)
+            it2 = g.api.pick_iter(u2)
+            out = []
+            if lap == 1:
+                # started in one order, finished in the same order
+                out += [x for x in [next(it1, None)] if x is not None]
+                next(it2, None)
+                out += list(it1)
+                list(it2)
+            elif lap == 2:
+                for _, x in zip(it2, it1):      # (zip asks `it2` first: nothing of `it1` is lost)
+                    out.append(x)
+                out += list(it1)
+                list(it2)
+            else:
+                next(it2, None)
+                out = list(it1)
+                it2.close()
+            return out
+        ok, v = call(w, both, a.ref, care_arg, b.ref)
+        w.stats['pick_iter_overlapping'] += 1
+    else:
+        ok, v = call(w, lambda u, c: list(g.api.pick_iter(u, c)), a.ref, care_arg)
     expect_ok(w, ok, v, 'C10', 'pick_iter')
     acc = 0
     for d in v:
@@ -721,7 +751,7 @@ def gen_pick(w, r, cfg):
     x = r.random()
     care = None if x < 0.35 else r.randrange(1 << w.nv)
     return dict(op='pick', a=_ri(r), care=care, superset=r.randrange(2), iter=r.random() < 0.7, how=r.randrange(2),
-                cont=r.choice([0, 0, 1, 2]))
+                cont=r.choice([0, 0, 1, 2]), overlap=r.choice([0, 0, 0, 1, 2, 3]), b=_ri(r))
 
 
 def gen_copy(w, r, cfg):
